@@ -18,6 +18,9 @@ VARIABLES l,       \* next line of Rec to consume
           drift    \* set of [run, line, what]
 vars == <<l, m, s, failed, viol, drift>>
 
+\* keep the violation set small (per property): a broken build can fail tens of thousands of runs
+CapViol(v, new) == v \cup {x \in new : Cardinality({y \in v : y.prop = x.prop}) < 25}
+
 Init == l = 1 /\ m = AInit /\ s = IInit /\ failed = FALSE /\ viol = {} /\ drift = {}
 
 B(x) == IF x THEN 1 ELSE 0
@@ -48,7 +51,7 @@ Next ==
           IN /\ m' = ar.st
              /\ s' = ir.st
              /\ failed' = (bad # {})
-             /\ viol' = viol \cup {[run |-> e.run, line |-> l, prop |-> "C15", what |-> w] : w \in bad}
+             /\ viol' = CapViol(viol, {[run |-> e.run, line |-> l, prop |-> "C15", what |-> w] : w \in bad})
              /\ drift' = IF bad = {} /\ (e.consumed # ir.st.k \/ e.clen # Len(ir.st.c))
                          THEN drift \cup {[run |-> e.run, line |-> l, what |-> "consumed/container length differ from transcription"]}
                          ELSE drift
